@@ -576,6 +576,9 @@ func (u *Unit) specCall(st *State, e *SExpr, env *SpecEnv, q *bool) *Val {
 			return boolVal("true")
 		}
 		return boolVal("false")
+	case "allocated": // allocated(p): p refers to an object that exists in the current state
+		x := ev(0)
+		return boolVal(app("<=", x.S, st.wm))
 	case "fresh": // fresh(p): allocated during this call
 		x := ev(0)
 		if env.old != nil {
